@@ -32,6 +32,18 @@ def header_table(facts, out):
     tab = _match_table(hfn)
     if not any(isinstance(k, str) for k in tab):
         tab = _lookup_table(facts, hfn)       # a constant table of (name, section) pairs searched by name
+    if not any(isinstance(k, str) for k in tab):
+        # the lookup handed to a combinator as a function item: `.and_then(Self::from_name)`
+        refs = []
+        H.walk(hfn['body'], lambda n, a: refs.append(n['def']) if n.get('k') == 'path' and n.get('dk', '').startswith(('Fn', 'AssocFn'))
+               and dict.__contains__(facts.hir, n.get('def', '')) else None)
+        for d in refs:
+            h2 = H.inlined_fn(facts, facts.hir[d], depth=1)
+            tab = _match_table(h2)
+            if not any(isinstance(k, str) for k in tab):
+                tab = _lookup_table(facts, h2)
+            if any(isinstance(k, str) for k in tab):
+                break
     # F2: literal set equals the format's header table, one variant each
     lits = sorted(k for k in tab if isinstance(k, str))
     ok = sorted(FORMAT_HEADERS) == lits
